@@ -320,8 +320,42 @@ static void nested_case(Rng& rng, uint64_t)
 	judge("nested-integral-value", (double) fabsl((ld) got - exact), tol, det);
 }
 
+// --- (5) requests that exhaust a deep recursion everywhere: quartics and quintics with epsilon = 1e-18, which rounding noise in |S2 - S| never meets, so
+// every panel is bisected down to the depth limit (2^(depth+2)+1 evaluations - the count bound is attained) and the result must still be exact.  The other
+// generators keep such requests shallow for cost; this one runs a few of them at depth 16-18 (thorough: up to 21), in the sanitizer flavour at 16-17,
+// because bookkeeping of pending panels (an explicit stack, a buffer sized for "typical" depths) only shows at these depths (seeded change C03-r3m1).
+static void deep_case(Rng& rng, uint64_t index)
+{
+	int deg = 4 + (int) (index & 1);
+	std::vector<double> c(deg + 1);
+	for(auto& v : c)
+		v = rng.mag(1e-2, 1e2);
+	double W = rng.loguni(1e-2, 1e2), lo = rng.uni(-1, 1) * W, a = lo, b = lo + W;
+	if(rng.coin())
+		std::swap(a, b);
+	int depth = ctx().is_asan() ? rng.irange(16, 17) : (ctx().thorough ? rng.irange(16, 21) : rng.irange(16, 18));
+	double eps = 1e-18 * rng.sign();
+	set_params(J().vec("coefficients", c).d("a", a).d("b", b).d("epsilon", eps).i("depth", depth));
+	for(double v : c)
+		hash_param(v);
+	hash_param(a), hash_param(b), hash_param_u(depth);
+	mark_nontrivial();
+	auto f = [&c](double x) { return horner(c, x); };
+	Run r  = run(f, a, b, eps, depth);
+	ld ref = poly_integral_midpoint(c, a, b);
+	double scale = poly_scale(c, a, b);
+	judge("deep-recursion-polynomial-exact", (double) fabsl((ld) r.value - ref), 64 * EPS * scale, [&] { return J().d("got", r.value).d("ref", (double) ref).i("evaluations", (long long) r.tr.n).i("degree", deg); });
+	universal_clauses(f, a, b, eps, depth, r);
+	// informational: how close the run came to the count bound
+	ClauseStat& cs = clause("deep-recursion-reached-the-depth-limit(informational)");
+	cs.n++;
+	if((double) r.tr.n >= std::ldexp(1.0, depth + 1))
+		cs.nontrivial++;
+}
+
 static void setup()
 {
+	add_generator("deep_full_recursion", ctx().count(24, 240), deep_case, 900.0);
 	add_generator("nested_reentrant", ctx().count(4500, 60000), nested_case);
 	add_generator("polynomials", ctx().count(180000, 3000000), poly_case);
 	add_generator("regular_families", ctx().count(48000, 800000), regular_case);
